@@ -34,7 +34,7 @@ WORLD_A = {
             'distinct = distinct history digest; non-trivial = at least two claim windows opened in the run'),
     'C09': ('C09', 'fault_enumeration', {'quick': (48, 30), 'thorough': (480, 200)},
             'per generated (model, configuration): exhaustive product {dispatcher present?} x {runtime present?} x {0,1,2 other '
-            'services} of the user locator (12 construction worlds), then seeded workloads in the world where construction must '
+            'services} of the user locator (12 construction worlds x {component looks the runtime up itself, component does not}), then seeded workloads in the world where construction must '
             'succeed with the identity of the executing dispatcher checked on every closure; distinct = distinct history digest; '
             'every world is non-trivial (a construction fault or a dispatched workload)'),
     'C10': ('C10', 'fault_enumeration', {'quick': (48, 0), 'thorough': (1000, 0)},
